@@ -521,7 +521,9 @@ def make_variant(m, rng, cut, perm=None, kind='', check=True):
     rng.shuffle(defs)
     return {'s': base + '.{' + ','.join(defs) + '}', 'mol': m.dump(), 'kind': kind, 'nparts': len(parts),
             'texts': texts, 'perm': perm, 'ambiguous': amb,
-            'wb': sorted([[l, an, bool(v), (l, an) in cutoff] for (l, an), v in wb.items()])}
+            'wb': sorted([[l, an, bool(v), (l, an) in cutoff] for (l, an), v in wb.items()]),
+            # one atom at read time: a bracket atom written without hydrogens that is a whole fragment
+            'lone': sorted(p[0] for p, t in zip(parts, texts) if len(p) == 1 and ('[%s;' % m.el[p[0]]) in t)}
 
 
 def variants_of(m, rng, budget):
@@ -710,6 +712,20 @@ def conflict_class_py(before, wb=None, ident=None):
     return False
 
 
+def lone_class_py(case, impl):
+    """mirror of EzCheck.lone_class: a cut-off marked ligand that is a one-atom-at-read-time fragment arrived
+    at the annotation step without 'ez_isomer_class'"""
+    if 'before' not in impl:
+        return False
+    nodes = dict((n, d) for n, d in impl['before']['nodes'])
+    ident = impl.get('ident') or impl.get('ident_before') or []
+    for l, an, w, cut in case.get('wb', []):
+        if cut and l in case.get('lone', []):
+            if any(b == l and 'ez_isomer_class' not in nodes.get(a, {}) for a, b in ident):
+                return True
+    return False
+
+
 def damaged(v, rng):
     """one slash mark of a variant flipped or deleted: outside the domain, correspondence only"""
     base, frs = v['s'].split('.{', 1)
@@ -808,6 +824,8 @@ class C15(common.Prop):
                  15: 'the cis/trans class of a substituent pair differs from the other variants (inside the class '
                      'cut_off_ligand_key_order: a marked substituent cut off from its anchor got a key on the other '
                      'side of the anchor than where it was written)',
+                 17: 'a cis/trans relation is missing (inside the class lone_atom_fragment_drops_mark: a marked substituent '
+                     'that is a one-atom fragment written as a bracket atom without hydrogens lost its slash mark)',
                  16: 'the resolver raised "Conflicting cis/trans assignment" on consistently marked input (inside the '
                      'class cut_off_ligand_conflict_error: one of two marked ligands of an anchor is cut off and got a '
                      'key on the other side of the anchor than where it was written)',
@@ -855,7 +873,7 @@ class C15(common.Prop):
 
     def describe(self, case):
         d = {'s': case['s'], 'mol': case['mol'], 'kind': case.get('kind', '')}
-        for k in ('raw', 'judged', 'wb'):
+        for k in ('raw', 'judged', 'wb', 'lone'):
             if k in case:
                 d[k] = case[k]
         return d
@@ -930,6 +948,8 @@ class C15(common.Prop):
             return None
         if code in (14, 15) and in_class_py(impl['before'], case.get('wb'), impl.get('ident')) == code:
             return {14: 'second_anchor_ligand_lower', 15: 'cut_off_ligand_key_order'}[code]
+        if code == 17 and lone_class_py(case, impl):
+            return 'lone_atom_fragment_drops_mark'
         if code == 16 and str(impl.get('raised', '')).startswith('ValueError: Conflicting') \
                 and conflict_class_py(impl['before'], case.get('wb'), self._ident_before(case, impl)):
             return 'cut_off_ligand_conflict_error'
@@ -951,13 +971,13 @@ class C15(common.Prop):
         ident = impl.get('ident') or impl.get('ident_before')
         wbl = lit.lst(['(%s, %s, %s, %s)' % (lit.z(l), lit.z(an), lit.b(w), lit.b(c)) for l, an, w, c in case.get('wb', [])])
         return ('{| c_judged := %s; c_before := %s; c_after := %s; c_ret := %s; c_atoms := %s; c_bonds := %s; '
-                'c_ident := %s; c_chiral := %s; c_rel := %s; c_wb := %s |}'
+                'c_ident := %s; c_chiral := %s; c_rel := %s; c_wb := %s; c_lone := %s |}'
                 % (lit.b(case.get('judged', True)), '(Some %s)' % before if before else 'None',
                    '(Some %s)' % after if after else 'None',
                    '(Some %s)' % ret if ret else 'None',
                    atoms, bonds,
                    lit.lst([lit.pair(lit.z(a), lit.z(b)) for a, b in ident]) if ident is not None else '[]',
-                   chir, rel, wbl))
+                   chir, rel, wbl, lit.lst([lit.z(a) for a in case.get('lone', [])])))
 
     def python_oracle(self, case, impl):
         return py_oracle(case, impl)
@@ -1000,7 +1020,7 @@ def py_oracle(case, impl):
         if k in want and want[k] != c:
             return ('before' in impl and in_class_py(impl['before'], case.get('wb'), impl.get('ident'))) or 4
     if set(got) != set(want):
-        return 5
+        return 17 if lone_class_py(case, impl) else 5
     return 0
 
 
@@ -1028,6 +1048,9 @@ _W2L = _wmol(['F', 'C', 'Cl', 'C', 'Br', 'I'], [(0, 1, 1), (1, 2, 1), (1, 3, 2),
              [(1, 3)], [(0, 1, 'd'), (2, 1, 'u'), (4, 3, 'u')])
 _W1L = _wmol(['F', 'C', 'Cl', 'C', 'Br', 'I'], [(0, 1, 1), (1, 2, 1), (1, 3, 2), (3, 4, 1), (3, 5, 1)],
              [(1, 3)], [(0, 1, 'd'), (4, 3, 'u')])
+# Br-[C;x=S]H2-C(Cl)=C(F)I with the CH2 written before its anchor with '\\' (above), F after with '/' (above): cis
+_WL = _wmol(['Br', 'C', 'C', 'Cl', 'C', 'F', 'I'], [(0, 1, 1), (1, 2, 1), (2, 3, 1), (2, 4, 2), (4, 5, 1), (4, 6, 1)],
+            [(2, 4)], [(1, 2, 'u'), (5, 4, 'u')], [(1, 'S')])
 WITNESSES = [
     {'s': '{[#B][#A]}.{#A=F/C(Cl)=[$],#B=[$]=C(Br)/I}', 'mol': _W18, 'kind': 'known-finding witness', 'nparts': 2},
     {'s': '{[#A][#B]}.{#A=F/C(Cl)=[$],#B=[$]=C(Br)/I}', 'mol': _W18, 'kind': 'witness other order', 'nparts': 2},
@@ -1045,6 +1068,12 @@ WITNESSES = [
     {'s': '{[#B][#A]}.{#A=F/[$],#B=[$]/C(/Cl)=C(/Br)I}', 'mol': _W2L,
      'kind': 'known-finding witness F cut off, two ligands, listed second', 'nparts': 2,
      'wb': [[0, 1, True, True], [2, 1, False, False], [4, 3, False, False]]},
+    # a marked substituent that is a one-atom fragment, written with / without hydrogens
+    {'s': '{[#A][#D][#B]}.{#A=Br[$h],#D=[CH2;x=S][$h]\\[$f],#B=[$f]\\C(Cl)=C(/F)I}', 'mol': _WL, 'kind': 'witness lone atom with H',
+     'nparts': 3, 'wb': [[1, 2, True, True], [5, 4, False, False]], 'lone': []},
+    {'s': '{[#A][#D][#B]}.{#A=Br[$h],#D=[C;x=S][$h]\\[$f],#B=[$f]\\C(Cl)=C(/F)I}', 'mol': _WL,
+     'kind': 'known-finding witness lone bracket atom without H', 'nparts': 3,
+     'wb': [[1, 2, True, True], [5, 4, False, False]], 'lone': [1]},
     # two-digit ring labels before labelled stereocentres (seeded/C15-1)
     {'s': '{[#A][#B]}.{#A=OC%10CCCC%10[$],#B=[$][C;x=R](F)[C;x=S](Cl)Br}', 'mol': None, 'kind': 'witness ring label', 'nparts': 2},
 ]
